@@ -106,7 +106,7 @@ type dnsEvent struct {
 
 type schedResolver struct {
 	events  chan dnsEvent
-	release []chan bool
+	release []chan int // 0: the call fails; 1: the answer of the name; k >= 2: variant k of it (a later state of the zone)
 }
 
 func dnsNameIdx(n string) int {
@@ -117,11 +117,19 @@ func dnsNameIdx(n string) int {
 }
 
 // dnsAnswer is the scripted resolver's answer: a function of the name (same convention as ansOf in VDriver/Conc.lean).
-func dnsAnswer(n string) []net.IPAddr {
+func dnsAnswer(n string) []net.IPAddr { return dnsAnswerV(n, 1) }
+
+// dnsAnswerV: variant k >= 2 is the same host seen at another time (third octet + 2k): two resolver calls for one name can
+// be told apart, so that serving ANOTHER call's answer past its expiry is observable (seeded change C19-r6m1)
+func dnsAnswerV(n string, k int) []net.IPAddr {
 	i := dnsNameIdx(n)
-	out := []net.IPAddr{{IP: net.IPv4(10, 0, 0, byte(i+1))}}
+	off := 0
+	if k >= 2 {
+		off = 2 * k
+	}
+	out := []net.IPAddr{{IP: net.IPv4(10, 0, byte(off), byte(i+1))}}
 	if i%2 == 1 {
-		out = append(out, net.IPAddr{IP: net.IPv4(10, 0, 1, byte(i+1))})
+		out = append(out, net.IPAddr{IP: net.IPv4(10, 0, byte(off+1), byte(i+1))})
 	}
 	return out
 }
@@ -142,17 +150,18 @@ func showIPs(a []net.IPAddr) string {
 func (r *schedResolver) LookupIPAddr(ctx context.Context, name string) ([]net.IPAddr, error) {
 	g, _ := ctx.Value(gidKey{}).(int)
 	r.events <- dnsEvent{g: g, kind: 'B', name: name}
-	ok := <-r.release[g]
-	if !ok {
+	k := <-r.release[g]
+	if k == 0 {
 		return nil, errors.New("scripted resolver failure")
 	}
-	return dnsAnswer(name), nil
+	return dnsAnswerV(name, k), nil
 }
 
 type dnsOp struct {
-	del  bool
-	name string
-	fail bool
+	del     bool
+	name    string
+	fail    bool
+	variant int // 0 / 1: the plain answer; 2..9: variant
 }
 
 func parseDNSOps(s string) ([][]dnsOp, bool) {
@@ -166,6 +175,8 @@ func parseDNSOps(s string) ([][]dnsOp, bool) {
 					ops = append(ops, dnsOp{del: true, name: o[1:]})
 				case len(o) == 2 && o[1] == '!':
 					ops = append(ops, dnsOp{name: o[:1], fail: true})
+				case len(o) == 2 && o[1] >= '2' && o[1] <= '9':
+					ops = append(ops, dnsOp{name: o[:1], variant: int(o[1] - '0')})
 				case len(o) == 1:
 					ops = append(ops, dnsOp{name: o})
 				default:
@@ -203,11 +214,11 @@ func runDNSSchedule(size int, regime, opsS, sched string) string {
 		return "bad-op"
 	}
 	k := len(todos)
-	res := &schedResolver{events: make(chan dnsEvent, 4*k+4), release: make([]chan bool, k)}
+	res := &schedResolver{events: make(chan dnsEvent, 4*k+4), release: make([]chan int, k)}
 	cache := fclient.VerifNewDNSCache(size, dur, res)
 	start := make([]chan dnsOp, k)
 	for g := 0; g < k; g++ {
-		res.release[g] = make(chan bool, 1)
+		res.release[g] = make(chan int, 1)
 		start[g] = make(chan dnsOp)
 		go func(g int) {
 			ctx := context.WithValue(context.Background(), gidKey{}, g)
@@ -229,6 +240,7 @@ func runDNSSchedule(size int, regime, opsS, sched string) string {
 	next := make([]int, k)       // index of the next op to start
 	blocked := make([]bool, k)   // goroutine sits in the resolver
 	curFail := make([]bool, k)   // fail flag of the op in flight
+	curVar := make([]int, k)     // answer variant of the op in flight
 	hung := false
 	defer func() {
 		if hung {
@@ -236,7 +248,7 @@ func runDNSSchedule(size int, regime, opsS, sched string) string {
 		}
 		for g := 0; g < k; g++ {
 			if blocked[g] {
-				res.release[g] <- false
+				res.release[g] <- 0
 				<-res.events
 			}
 			close(start[g])
@@ -279,11 +291,18 @@ func runDNSSchedule(size int, regime, opsS, sched string) string {
 			continue
 		}
 		if blocked[g] {
-			res.release[g] <- !curFail[g]
+			switch {
+			case curFail[g]:
+				res.release[g] <- 0
+			case curVar[g] >= 2:
+				res.release[g] <- curVar[g]
+			default:
+				res.release[g] <- 1
+			}
 		} else {
 			op := todos[g][next[g]]
 			next[g]++
-			curFail[g] = op.fail
+			curFail[g], curVar[g] = op.fail, op.variant
 			start[g] <- op
 		}
 		ev, ok := wait(g)
@@ -435,8 +454,8 @@ func genConc(o *Out, tier string, r *Rng) {
 }
 
 func genConcDNS(o *Out, tier string, r *Rng) {
-	atoms2 := []string{"a", "b", "a!", "-a"}
-	atoms3 := []string{"a", "b", "c", "b!", "-b"}
+	atoms2 := []string{"a", "b", "a!", "-a", "a2"}
+	atoms3 := []string{"a", "b", "c", "b!", "-b", "b3", "a2"}
 	lists2 := dnsOpLists(atoms2, 2)
 	lists3 := dnsOpLists(atoms3, 3)
 	regimes := []string{"h", "n"}
@@ -453,7 +472,7 @@ func genConcDNS(o *Out, tier string, r *Rng) {
 			}
 		}
 		// 3 goroutines x one op each x cap 1,2 x both regimes x ALL schedules
-		one := []string{"a", "b", "a!", "-a", "c"}
+		one := []string{"a", "b", "a!", "-a", "c", "a2"}
 		for _, x := range one {
 			for _, y := range one {
 				for _, z := range one {
